@@ -8,7 +8,7 @@ under a condition on a *different* field leaves dst.F stale/uninitialised on tha
 from vfacts import strip, walk, root_path, stmt_exits, is_node
 
 RULE = 'COPYALL'
-FLOOR = 30
+FLOOR = 45
 
 
 def field_copy(n):
@@ -76,3 +76,83 @@ def run(unit, em):
                 em.violation(n, txt, 'this field copy is skipped when `%s` leaves early, a condition that does not look at %s: on that path the destination keeps a stale %s' % (unit.text(bad['c'], 50), F, F))
             else:
                 em.ok(n, txt, 'on every path of its block (or skipped only when %s itself is empty)' % F)
+
+
+# ---- clause `complete`: a hand-written assignment operator / copy constructor handles every data member
+def run_complete(unit, em):
+    recs = {r.get('d'): r for r in unit.records}
+    for fn in unit.functions:
+        if not fn.d.get('rcd') or fn.d['rcd'] not in recs:
+            continue
+        name = fn.q.rsplit('::', 1)[-1]
+        rec = recs[fn.d['rcd']]
+        rct = rec['rct'].replace('const ', '').strip()
+        is_asg = name == 'operator=' and fn.body is not None and len(fn.params) == 1
+        is_cctor = fn.d.get('fk') == 'ctor' and len(fn.params) == 1
+        if not (is_asg or is_cctor):
+            continue
+        pt = unit.ty(fn.params[0]).replace('const ', '').replace('&', '').strip()
+        if pt != rct:
+            continue
+        def assignable(t):
+            t = t.replace('const ', '').strip()
+            for r2 in unit.records:
+                if r2['rct'].replace('const ', '').strip() == t:
+                    if any(unit.tname(f2.get('t')).rstrip().endswith('&') for f2 in r2.get('fields', [])):
+                        return False     # a class with a reference member cannot be re-seated by assignment
+            return True
+        fields = [f for f in rec.get('fields', []) if not unit.tname(f.get('t')).rstrip().endswith('&') and not unit.tname(f.get('t')).startswith('const ')
+                  and (is_cctor or assignable(unit.tname(f.get('t'))))]
+        if len(fields) < 2:
+            continue
+        handled = set()
+        if is_cctor:
+            for i in fn.d.get('inits') or []:
+                if i.get('n'):
+                    handled.add(i['n'])
+            if not (fn.d.get('inits') or []):
+                continue
+        if fn.body is not None:
+            for n in fn.walk():
+                # any mention of an own member counts as handling it (deep copies rebuild members through calls)
+                if n['k'] == 'MemberExpr' and n.get('dk', 'field') == 'field':
+                    b0 = n.get('ch') or [n.get('obj')]
+                    bb0 = strip(b0[0]) if b0 and b0[0] else None
+                    if bb0 is None or bb0['k'] == 'CXXThisExpr':
+                        handled.add(n.get('n'))
+                if n['k'] in ('BinaryOperator', 'CXXOperatorCallExpr') and n.get('op') == '=':
+                    ops = n.get('ch') if n['k'] == 'BinaryOperator' else n.get('args')
+                    l = strip(ops[0]) if ops else None
+                    if l is not None and l['k'] == 'MemberExpr' and l.get('dk', 'field') == 'field':
+                        b = l.get('ch') or [l.get('obj')]
+                        bb = strip(b[0]) if b and b[0] else None
+                        if bb is None or bb['k'] == 'CXXThisExpr':
+                            handled.add(l.get('n'))
+                # swap(a.F, b.F) / std::swap(F, rhs.F)
+                if n['k'] == 'CallExpr' and (n.get('q') or '').endswith('swap'):
+                    for a in n.get('args') or []:
+                        sa = strip(a)
+                        if sa is not None and sa['k'] == 'MemberExpr':
+                            handled.add(sa.get('n'))
+                # delegation to a base / whole-object copy: not analysed
+                if n['k'] in ('CXXMemberCallExpr', 'CXXOperatorCallExpr') and (n.get('q') or '').endswith('operator=') and n.get('inrepo') and n is not fn.body:
+                    cal = n.get('q') or ''
+                    if cal.rsplit('::', 2)[0] != fn.q.rsplit('::', 2)[0]:
+                        pass
+        missing = [f['n'] for f in fields if f['n'] not in handled]
+        what = '%s::%s' % (rct.split('::')[-1].split('<')[0], 'operator=' if is_asg else 'copy/move constructor')
+        if not handled:
+            continue        # defaulted-like / delegating implementation: nothing field-wise to compare
+        if missing:
+            em.violation(fn, what + ' handles every member', 'the hand-written %s copies the members one by one but leaves out `%s`: the destination keeps its own old value of that member (a cached answer, a counter) after taking over the rest of the source' % (
+                'assignment operator' if is_asg else 'constructor', '`, `'.join(missing)), 'complete')
+        else:
+            em.ok(fn, what + ' handles every member', '%d members' % len(fields), 'complete')
+
+
+_run_copies = run
+
+
+def run(unit, em):
+    _run_copies(unit, em)
+    run_complete(unit, em)
